@@ -12,6 +12,11 @@ open Nervus Nervus.Driver
 def step (_ : Unit) (ws : List String) : Unit × String × String × String :=
   match ws with
   | ["mix", _, _, _] => ((), "done", "done", "")
+  | "cycle" :: specs =>
+    -- forced schedule derived by the extractor from a feasible cycle of the regenerated relation: the
+    -- model says the threads end up waiting for each other
+    if specs == Generated.cycleWitness && !specs.isEmpty then ((), "HANG", "done", "")
+    else ((), "done", "done", "")
   | ["reentry", op] =>
     if Generated.reentrantRoots.contains op then ((), "HANG", "done", "C35-txn-reentry")
     else ((), "done", "done", "")
